@@ -24,8 +24,8 @@
 (* Lines are checked one by one against the state built from the lines before; unexplained     *)
 (* lines are collected (variable bad).                                                         *)
 EXTENDS OSSPS, TraceLib
-VARIABLES l, sys, c, p, data, ref, run, den, prev, xm, taint, bad
-vars == << l, sys, c, p, data, ref, run, den, prev, xm, taint, bad >>
+VARIABLES l, sys, c, p, data, ref, run, den, prev, xm, taint, lastX, scale, bad
+vars == << l, sys, c, p, data, ref, run, den, prev, xm, taint, lastX, scale, bad >>
 
 NoSys == [id |-> 0]
 NoCfg == [id |-> 0]
@@ -40,30 +40,43 @@ ConfigOk(r) ==
   /\ sys # NoSys /\ r.sys = sys.id /\ r.id >= 1
   /\ r.N >= 1 /\ r.N <= sys.numViews /\ r.startSubset \in 0..(r.N - 1)
   /\ (~r.uss => sys.numViews % r.N = 0)               \* without subset sensitivities the subsets must be balanced
-  /\ RelaxationOk(r) /\ (r.uInf \/ (r.uN >= 1 /\ r.uK >= 0 /\ r.uN < 4096))
+  /\ r.aN >= 0 /\ r.aK >= 0 /\ r.gN >= 0 /\ r.gK >= 0 /\ (r.uInf \/ (r.uN >= 0 /\ r.uK >= 0 /\ r.uN < 4096))
   /\ Len(r.dims) = 3 /\ r.dims[1] * r.dims[2] * r.dims[3] = sys.nv
   /\ (r.dep => r.prior) /\ (r.kappa => r.prior)
   /\ r.prior => (r.beta >= 1 /\ (r.defaultWeights \/ WeightsOk(r.w)) /\ (r.kappa => (Len(r.kap) = sys.nv /\ \A v \in 1..sys.nv : r.kap[v] >= 1)))
   \* filters: only ones that cannot leave [min, max] of their input (medians), see BoundPreservingFilter in notes/C08.md
-  /\ r.filter \in {"none", "median001", "median011", "median111"} /\ r.filterInt >= 0 /\ ~r.enforcePos
+  /\ r.filter \in {"none", "median001", "median011", "median111"} /\ r.filterInt >= 0
+  /\ r.priorType \in {"quadratic", "logcosh", "rdp"} /\ r.denFile \in {"none", "own", "wrong"}
+  /\ (r.priorType # "quadratic" => (r.prior /\ r.defaultWeights /\ ~r.dep /\ ~r.exact))
   /\ (r.filterInt > 0 \/ r.post) => r.filter # "none"
-PriorOf(r) == IF r.prior /\ ~r.defaultWeights THEN MakePrior(r.dims, r.w, IF r.kappa THEN r.kap ELSE << >>, r.beta) ELSE << >>
+(* BEYOND THE PROPERTY (documented behaviour of set_up): configurations set_up must refuse - "relaxation parameter should be   *)
+(* positive", "Prior must be of a type derived from PriorWithParabolicSurrogate", "precomputed_denominator should have same     *)
+(* characteristics as target image"                                                                                           *)
+MustRefuse(cc) == cc.aN = 0 \/ (cc.prior /\ cc.priorType = "rdp") \/ cc.denFile = "wrong"
+PriorOf(r) == IF r.prior /\ ~r.defaultWeights /\ r.priorType = "quadratic" THEN MakePrior(r.dims, r.w, IF r.kappa THEN r.kap ELSE << >>, r.beta) ELSE << >>
 
 (* ---- Run *)
 RunOf(r) == [kind |-> r.kind, obj |-> r.obj, from |-> r.from, start |-> r.start, last |-> r.last, isRef |-> r.ref, twice |-> r.twice,
              kl |-> r.kl, init |-> r.init, initBits |-> r.initBits, next |-> r.start, setup |-> FALSE]
-Compared(kind) == kind \in {"resume", "again", "reuse"}
+Compared(kind) == kind \in {"resume", "again", "reuse", "denfile"}
 RunOk(r) ==
   /\ c # NoCfg /\ r.cfg = c.id
   /\ r.start = r.from + 1 /\ r.last >= r.start /\ r.kl \in 4..20
   /\ Len(r.init) = sys.nv /\ Len(r.initBits) = sys.nv /\ \A v \in 1..sys.nv : r.initBits[v] >= 0     \* a non-negative start image
+  /\ (r.kind = "refuse" <=> MustRefuse(c))
+  /\ (c.randomise => (r.kind = "fresh" /\ ~r.ref))          \* a randomised order cannot be repeated: no compared runs
   /\ CASE r.kind = "single" -> c.exact /\ r.exi /\ data # NoData /\ data.cfg = c.id /\ ~r.ref
        [] r.kind = "fresh" -> ~c.exact /\ r.from = 0
        [] r.kind = "history" -> ~c.exact /\ r.from = 0 /\ ~r.ref
        [] r.kind = "resume" -> /\ ~c.exact /\ ~r.ref /\ ref.cfg = c.id /\ r.last = ref.last
                                \* "resuming from a saved iterate": the image handed over is the one saved after sub-iteration `from'
                                /\ r.from \in DOMAIN ref.steps /\ r.initBits = ref.steps[r.from]
-       [] r.kind \in {"again", "reuse"} -> ~c.exact /\ ~r.ref /\ ref.cfg = c.id /\ r.last = ref.last /\ r.from = 0 /\ r.initBits = ref.initBits
+       [] r.kind = "refuse" -> ~c.exact /\ r.from = 0 /\ ~r.ref
+       \* BEYOND THE PROPERTY: reconstruct without set_up on a used object ("This modifies *precomputed_denominator_ptr. So, you
+       \* have to call set_up() before running a new reconstruction"): an error is required, not a reconstruction
+       [] r.kind = "nosetup" -> ~c.exact /\ r.from = 0 /\ ~r.ref
+       \* BEYOND THE PROPERTY: the denominator read from the file a run saved ("precomputed denominator" keyword) instead of computed
+       [] r.kind \in {"again", "reuse", "denfile"} -> (r.kind = "denfile" <=> c.denFile = "own") /\ ~c.exact /\ ~r.ref /\ ref.cfg = c.id /\ r.last = ref.last /\ r.from = 0 /\ r.initBits = ref.initBits
        [] OTHER -> FALSE
 
 (* ---- exact instances *)
@@ -74,13 +87,19 @@ ColEmpty(v) == Len(sys.cols[v]) = 0      \* no bin sees the voxel (all bins take
 (* ---- SetUp *)
 DenOf(r) == [kd |-> r.kd, dData |-> r.dData, curv |-> IF c.prior THEN r.curv ELSE [v \in 1..sys.nv |-> 0]]
 DRec(d, v) == d.dData[v] + 2 * d.curv[v]          \* D = -(H~ 1) + 2 curvature, from the recorded parts
-SetUpOk(r) ==
-  /\ run # NoRun /\ ~run.setup
-  /\ ~r.err /\ r.ok /\ r.usedN = c.N
-  \* the approximate Hessian is requested once per subset per set_up
-  /\ r.nApprox = c.N * (IF run.twice THEN 2 ELSE 1)
-  /\ r.dRead /\ Len(r.dData) = sys.nv /\ (c.prior => (~r.cErr /\ Len(r.curv) = sys.nv))
-  /\ r.tgtBits = run.initBits                      \* set_up leaves the image alone (no "enforce initial positivity")
+
+(* BEYOND THE PROPERTY ("enforce initial positivity condition": "determines whether non-positive values in the initial image   *)
+(* will be set to small positive ones"): positive values stay, the others become positive and smaller than every positive one. *)
+(* When a reconstruction is RESUMED the image is a saved iterate and must not be altered at all (the property's resume clause)  *)
+(* - reading "doc"; reading "always" = altered also then (finding C08-resume-positivity, used for classification only).        *)
+MinPositive(bits) == LET P == { bits[v] : v \in { w \in 1..Len(bits) : bits[w] > 0 } } IN IF P = {} THEN 0 ELSE CHOOSE x \in P : \A y \in P : x <= y
+TargetOk(r, reading) ==
+  IF c.enforcePos /\ (run.start = 1 \/ reading = "always")
+  THEN \A v \in 1..sys.nv : IF run.initBits[v] > 0 THEN r.tgtBits[v] = run.initBits[v]
+                              ELSE r.tgtBits[v] > 0 /\ (MinPositive(run.initBits) = 0 \/ r.tgtBits[v] < MinPositive(run.initBits))
+  ELSE r.tgtBits = run.initBits                    \* set_up leaves the image alone
+
+SetUpNumbers(r) ==
   /\ LET d == DenOf(r) IN
      \* "D the strictly positive precomputed curvature": positive wherever a bin sees the voxel or a prior is present
      /\ \A v \in 1..sys.nv : /\ r.dData[v] >= 0 /\ d.curv[v] >= 0
@@ -96,6 +115,19 @@ SetUpOk(r) ==
        \* "minus the approximate log-likelihood Hessian applied to a uniform image"
        /\ \A v \in 1..sys.nv : r.dData[v] = XDenData(sys, X, m, v)
 
+SetUpAccepted(r, reading) ==
+  /\ ~r.err /\ r.ok /\ r.usedN = c.N
+  \* the approximate Hessian is requested once per subset per set_up - not at all when the denominator is read from file
+  /\ r.nApprox = (IF c.denFile = "own" THEN 0 ELSE c.N * (IF run.twice THEN 2 ELSE 1))
+  /\ r.dRead /\ Len(r.dData) = sys.nv /\ (c.prior => (~r.cErr /\ Len(r.curv) = sys.nv))
+  /\ Len(r.tgtBits) = sys.nv /\ TargetOk(r, reading)
+  /\ SetUpNumbers(r)
+
+SetUpOk(r, reading) ==
+  /\ run # NoRun /\ ~run.setup
+  \* BEYOND THE PROPERTY: the documented refusals of set_up (MustRefuse) - Succeeded::no, no reconstruction
+  /\ IF run.kind = "refuse" THEN ~r.ok ELSE SetUpAccepted(r, reading)
+
 (* ---- Step *)
 First(r) == r.k = run.start
 FilterApplies(r) == (c.filterInt > 0 /\ r.k % c.filterInt = 0) \/ (c.post /\ r.k = run.last)
@@ -107,12 +139,15 @@ EstOk(r, reading) ==
   /\ LET zs(v) == ColEmpty(v) IN
      r.est = (IF FillApplies(r.k, run.start, reading) THEN FillNonIdentifiable(r.lam0, zs) ELSE r.lam0)
 
+FloatSlack(x) == IF Abs(x) < 16777216 THEN 0 ELSE Abs(x) \div 8388608
 StepCommon(r, reading, waiveRef) ==
   /\ c # NoCfg /\ run # NoRun /\ run.setup /\ r.k = run.next /\ r.k <= run.last
   /\ r.kl = run.kl /\ Len(r.lam0) = sys.nv /\ Len(r.lam1) = sys.nv /\ Len(r.lam2) = sys.nv
   /\ Len(r.b0) = sys.nv /\ Len(r.b1) = sys.nv /\ Len(r.b2) = sys.nv
   \* one sub-gradient request per sub-iteration, for the subset of the schedule, with the configured number of subsets
-  /\ r.nGrad = 1 /\ r.sub = SubsetOf(c, r.k) /\ r.nsub = c.N /\ Has(r, "g") /\ Len(r.g) = sys.nv
+  \* (BEYOND THE PROPERTY: with "uniformly randomise subset order" the law is demanded for whichever subset was handed over;
+  \*  the schedule itself is C06's subject)
+  /\ r.nGrad = 1 /\ (IF c.randomise THEN r.sub \in 0..(c.N - 1) ELSE r.sub = SubsetOf(c, r.k)) /\ r.nsub = c.N /\ Has(r, "g") /\ Len(r.g) = sys.nv
   /\ r.nFill \in 0..1
   \* the sub-iteration starts from the image the previous one (or set_up) left
   /\ r.b0 = prev
@@ -123,14 +158,18 @@ StepCommon(r, reading, waiveRef) ==
   /\ FilterApplies(r) \/ r.b2 = r.b1
   \* "resuming from a saved iterate reproduces the uninterrupted run" (bit for bit); likewise the object used before
   /\ (Compared(run.kind) /\ ~waiveRef) => (r.k \in DOMAIN ref.steps /\ r.b2 = ref.steps[r.k])
+  \* BEYOND THE PROPERTY ("write update image"): the file written for this sub-iteration holds the additive update - adding it
+  \* to the image handed to the objective function and clamping gives the new image
+  /\ c.writeUpdate => /\ Has(r, "upd") /\ r.updRead /\ Len(r.upd) = sys.nv
+                      /\ \A v \in 1..sys.nv : LET x == r.est[v] + r.upd[v] IN
+                            Abs(r.lam1[v] - ClampU(c, x, r.kl)) <= (IF c.exact THEN FloatSlack(x) ELSE 2 + Abs(x) \div 4194304)
 
 (* the law on an exact instance: TLC computes gradient, denominator and the new value from P, y, a, lambda, weights, kappa. *)
 (* A float holds 24 significant bits: a value x (units 2^-kl) with |x| < 2^24 is held exactly, a larger one to one ulp.      *)
-FloatSlack(x) == IF Abs(x) < 16777216 THEN 0 ELSE Abs(x) \div 8388608
 StepExactOk(r, m) ==
   LET X == XOf(r.est, r.kl)
       n == RelaxationIndex(r.k, c.N)
-      s == SubsetOf(c, r.k) IN
+      s == r.sub IN
   /\ r.exe /\ r.ex0 /\ r.ex1 /\ r.exg /\ r.kg = GK /\ r.kl >= GK
   /\ \A v \in 1..sys.nv : r.est[v] % 2^r.kl = 0
   /\ XInstanceOk(sys, X, m)
@@ -140,6 +179,7 @@ StepExactOk(r, m) ==
        /\ c.N * r.g[v] = ng                                 \* the sub-gradient of the penalised objective (subset share of the prior: 1/N)
        /\ IF ThresholdRegime(D) THEN ng = 0 /\ r.lam1[v] = ClampU(c, r.est[v], r.kl)
           ELSE /\ StepExact(c, n, ng, D, r.kl, GK, HK)
+               /\ c.writeUpdate => (r.exu /\ r.upd[v] = Increment(c, n, ng, D, r.kl, GK, HK)[1])     \* the update file = zeta N g / D
                /\ LET x == r.est[v] + Increment(c, n, ng, D, r.kl, GK, HK)[1] IN
                   Abs(r.lam1[v] - ClampU(c, x, r.kl)) <= FloatSlack(x)
 
@@ -150,29 +190,48 @@ CoarseBits == 8
 FreeVoxelOk(n, est, g, lam1, D, kl, kg, kd, extra) ==
   LET q == Increment(c, n, c.N * g, D, kl, kg, kd)[1] IN
   Abs(lam1 - ClampU(c, est + q, kl)) <= StepTol(c, n, c.N, q, D, kl, kg, kd) * (1 + extra) + 2 * extra
-StepFreeOk(r) ==
+UpdFreeOk(n, g, upd, D, kl, kg, kd) ==         \* the update file against the law (same tolerance)
+  LET q == Increment(c, n, c.N * g, D, kl, kg, kd)[1] IN Abs(upd - q) <= StepTol(c, n, c.N, q, D, kl, kg, kd)
+(* BEYOND THE PROPERTY (priors other than the quadratic one that have a parabolic surrogate - log-cosh): "twice the prior's      *)
+(* surrogate curvature" is the curvature AT THE CURRENT IMAGE (curvSrc = "now", recorded from the prior for the image of the    *)
+(* sub-iteration); curvSrc = "stored" = the curvature of the image the run started from (quadratic prior: the same thing;       *)
+(* log-cosh: the behaviour of finding C08-logcosh-curvature, used for classification only)                                      *)
+StepFreeOk(r, curvSrc) ==
   LET n == RelaxationIndex(r.k, c.N) IN
   /\ r.kg \in CoarseBits..12 /\ r.kl >= r.kg /\ r.kl - CoarseBits >= 2
+  /\ (curvSrc = "now" => (Has(r, "curvNow") /\ Len(r.curvNow) = sys.nv))
   /\ \A v \in 1..sys.nv :
-       LET D == DRec(den, v) IN
+       LET D == IF curvSrc = "now" THEN den.dData[v] + 2 * r.curvNow[v] ELSE DRec(den, v) IN
        IF ThresholdRegime(D) THEN r.g[v] = 0 /\ r.lam1[v] = ClampU(c, r.est[v], r.kl)
-       ELSE IF Abs(r.g[v]) < 65536 THEN FreeVoxelOk(n, r.est[v], r.g[v], r.lam1[v], D, r.kl, r.kg, den.kd, 0)
+       ELSE IF Abs(r.g[v]) < 65536 THEN /\ FreeVoxelOk(n, r.est[v], r.g[v], r.lam1[v], D, r.kl, r.kg, den.kd, 0)
+                                        /\ c.writeUpdate => UpdFreeOk(n, r.g[v], r.upd[v], D, r.kl, r.kg, den.kd)
        ELSE FreeVoxelOk(n, r.est[v] \div 2^CoarseBits, r.g[v] \div 2^CoarseBits, r.lam1[v] \div 2^CoarseBits, D,
                         r.kl - CoarseBits, r.kg - CoarseBits, den.kd, 1)
 
+(* the scale clause on recorded bit patterns (see OSSPS.tla): same sub-iteration, scaled configuration, data and image *)
+ScaleOk(r) ==
+  /\ c.exact /\ data # NoData /\ ScaledConfig(scale.cfg, c, scale.by)
+  /\ ScaledSeq(scale.data.yq, data.yq, scale.by) /\ ScaledSeq(scale.data.a, data.a, scale.by)
+  /\ r.k = scale.last.k /\ r.b0 = ScaledBits(scale.last.b0, scale.by)
+  /\ r.b1 = ScaledBits(scale.last.b1, scale.by)
+CurvDoc == IF c # NoCfg /\ c.priorType = "logcosh" THEN "now" ELSE "stored"
+Law(r, m, curvSrc) == IF c.exact THEN StepExactOk(r, m) ELSE StepFreeOk(r, curvSrc)
 Explains(r, m) ==
   CASE r.e = "System" -> SystemOk(SysOf(r))
     [] r.e = "Config" -> ConfigOk(r)
     [] r.e = "Data" -> /\ c # NoCfg /\ c.exact /\ r.cfg = c.id /\ Len(r.yq) = NB(sys) /\ Len(r.a) = NB(sys)
                        /\ (~c.additive => \A b \in 1..NB(sys) : r.a[b] = 0)          \* no additive term
     [] r.e = "Run" -> RunOk(r)
-    [] r.e = "SetUp" -> SetUpOk(r)
-    [] r.e = "Step" -> StepCommon(r, "doc", FALSE) /\ (IF c.exact THEN StepExactOk(r, m) ELSE StepFreeOk(r))
+    [] r.e = "SetUp" -> SetUpOk(r, "doc")
+    [] r.e = "Step" -> StepCommon(r, "doc", FALSE) /\ Law(r, m, CurvDoc) /\ (scale # << >> => ScaleOk(r))
+    [] r.e = "RunEnd" /\ run # NoRun /\ run.kind = "nosetup" -> r.err /\ r.steps = 0
     [] r.e = "RunEnd" -> /\ run # NoRun /\ run.setup /\ ~r.err /\ r.ok
                          /\ r.steps = run.last - run.start + 1 /\ run.next = run.last + 1 /\ r.finalBits = prev
     [] r.e = "Saved" -> /\ ref.cfg = r.cfg /\ ref.obj = r.obj /\ ~r.err
                         \* the saved file holds the iterate, bit for bit
                         /\ r.k \in DOMAIN ref.steps /\ r.bits = ref.steps[r.k]
+    \* scale clause: announces that the next exact instance is the previous one times 2^by
+    [] r.e = "ScaleOf" -> c # NoCfg /\ c.exact /\ r.cfg = c.id /\ r.by \in 1..3 /\ lastX # << >> /\ lastX.cfg = c.id /\ data # NoData
     [] r.e = "End" -> r.lines >= l - 1
     [] OTHER -> FALSE          \* Abort, ConfigureError, unknown lines
 
@@ -186,11 +245,34 @@ RefillHit(r) == r.k = run.start /\ \E v \in 1..sys.nv : ColEmpty(v) /\ r.lam0[v]
 KnownRefill(r, m) ==
   /\ r.e = "Step" /\ c # NoCfg /\ run # NoRun /\ run.start > 1 /\ c.prior /\ HasHole
   /\ Has(r, "lam0") /\ Len(r.lam0) = sys.nv /\ Has(r, "k")
-  /\ (RefillHit(r) \/ (taint /\ r.k > run.start))
-  /\ StepCommon(r, "refill_on_resume", TRUE) /\ (IF c.exact THEN StepExactOk(r, m) ELSE StepFreeOk(r))
-Classify(r, m) == IF KnownRefill(r, m) THEN "C08-resume-nonidentifiable" ELSE "new"
+  /\ (RefillHit(r) \/ (taint = "refill" /\ r.k > run.start))
+  /\ StepCommon(r, "refill_on_resume", TRUE) /\ Law(r, m, CurvDoc)
+(* Finding C08-resume-positivity: with "enforce initial positivity condition" set_up raises the zeros of the image also when    *)
+(* the reconstruction is resumed from a saved iterate.  Signature: the SetUp line of a run that starts at a sub-iteration > 1    *)
+(* with the option on, explained completely under the reading "always"; the Steps of that run obey the law but no longer repeat *)
+(* the reference run.                                                                                                           *)
+KnownPosResume(r) ==
+  /\ r.e = "SetUp" /\ c # NoCfg /\ run # NoRun /\ run.kind = "resume" /\ run.start > 1 /\ c.enforcePos
+  /\ Has(r, "tgtBits") /\ ~SetUpOk(r, "doc") /\ SetUpOk(r, "always")
+KnownPosTaint(r, m) ==
+  /\ r.e = "Step" /\ c # NoCfg /\ run # NoRun /\ taint = "pos" /\ c.enforcePos /\ run.start > 1
+  /\ StepCommon(r, "doc", TRUE) /\ Law(r, m, CurvDoc)
+(* Finding C08-logcosh-curvature: LogcoshPrior answers "no" to parabolic_surrogate_curvature_depends_on_argument() although its  *)
+(* curvature is computed from the differences of the image, so OSSPS keeps the curvature of the image a run started from.       *)
+(* Signature: log-cosh prior, a sub-iteration after the first of the run, explained completely with the stored curvature.       *)
+KnownLogcosh(r, m) ==
+  /\ r.e = "Step" /\ c # NoCfg /\ run # NoRun /\ c.priorType = "logcosh" /\ Has(r, "k") /\ r.k > run.start
+  /\ StepCommon(r, "doc", FALSE) /\ Law(r, m, "stored")
+(* Finding C08-reconstruct-without-setup: reconstruct on a used object without set_up runs (with a stored penalty term added   *)
+(* to the denominator a second time) instead of reporting an error.  Signature: the Step and RunEnd lines of a "nosetup" run. *)
+KnownNoSetUp(r) == r.e \in {"Step", "RunEnd"} /\ run # NoRun /\ run.kind = "nosetup"
+Classify(r, m) == IF KnownNoSetUp(r) THEN "C08-reconstruct-without-setup"
+                  ELSE IF KnownRefill(r, m) THEN "C08-resume-nonidentifiable"
+                  ELSE IF KnownPosResume(r) \/ KnownPosTaint(r, m) THEN "C08-resume-positivity"
+                  ELSE IF KnownLogcosh(r, m) THEN "C08-logcosh-curvature"
+                  ELSE "new"
 
-Init == /\ taint = FALSE /\ l = 1 /\ sys = NoSys /\ c = NoCfg /\ p = << >> /\ data = NoData /\ ref = NoRef /\ run = NoRun
+Init == /\ taint = "none" /\ lastX = << >> /\ scale = << >> /\ l = 1 /\ sys = NoSys /\ c = NoCfg /\ p = << >> /\ data = NoData /\ ref = NoRef /\ run = NoRun
         /\ den = << >> /\ prev = << >> /\ xm = << >> /\ bad = << >>
 
 ShapedStep(r) == r.e = "Step" /\ c # NoCfg /\ c.exact /\ data # NoData /\ Has(r, "est") /\ Len(r.est) = sys.nv /\ Has(r, "kl")
@@ -203,11 +285,15 @@ Next ==
      /\ p' = IF r.e = "Config" THEN (IF ConfigOk(r) THEN PriorOf(r) ELSE << >>) ELSE IF r.e = "System" THEN << >> ELSE p
      /\ data' = IF r.e = "Data" THEN r ELSE IF r.e \in {"System", "Config"} THEN NoData ELSE data
      /\ run' = IF r.e = "Run" THEN (IF RunOk(r) THEN RunOf(r) ELSE NoRun)
-               ELSE IF r.e = "SetUp" /\ run # NoRun THEN [run EXCEPT !.setup = SetUpOk(r)]
+               ELSE IF r.e = "SetUp" /\ run # NoRun THEN [run EXCEPT !.setup = (run.kind # "refuse" /\ (SetUpOk(r, "doc") \/ KnownPosResume(r)))]
                ELSE IF r.e = "Step" /\ run # NoRun THEN [run EXCEPT !.next = @ + 1]
                ELSE IF r.e \in {"RunEnd", "System"} THEN NoRun
                ELSE run
-     /\ den' = IF r.e = "SetUp" /\ run # NoRun /\ c # NoCfg /\ Has(r, "dData") /\ Has(r, "kd") /\ (c.prior => Has(r, "curv")) THEN DenOf(r) ELSE den
+     /\ den' = IF r.e = "SetUp" /\ run # NoRun /\ c # NoCfg /\ Has(r, "dData") /\ Has(r, "kd") /\ (c.prior => Has(r, "curv")) THEN DenOf(r)
+               \* log-cosh: what the implementation keeps is the curvature of the image of the FIRST sub-iteration of the run
+               ELSE IF r.e = "Step" /\ run # NoRun /\ c # NoCfg /\ c.priorType = "logcosh" /\ Has(r, "curvNow") /\ Has(r, "k") /\ r.k = run.start /\ den # << >>
+                 THEN [den EXCEPT !.curv = r.curvNow]
+               ELSE den
      /\ prev' = IF r.e = "SetUp" /\ Has(r, "tgtBits") THEN r.tgtBits ELSE IF r.e = "Step" THEN r.b2 ELSE prev
      /\ ref' = IF r.e = "Run" /\ RunOk(r) /\ r.ref
                  THEN [cfg |-> r.cfg, obj |-> r.obj, initBits |-> r.initBits, last |-> r.last, steps |-> << >>]
@@ -216,9 +302,14 @@ Next ==
                ELSE ref
      \* memo of the exact instance at the image handed to the objective function (computed once per line)
      /\ xm' = IF ShapedStep(r) THEN XMemo(sys, XOf(r.est, r.kl)) ELSE xm
-     /\ taint' = IF r.e \in {"Run", "RunEnd", "System"} THEN FALSE
-                 ELSE IF r.e = "Step" /\ ~Explains(r, xm') /\ KnownRefill(r, xm') THEN TRUE
+     /\ taint' = IF r.e \in {"Run", "RunEnd", "System"} THEN "none"
+                 ELSE IF r.e = "Step" /\ ~Explains(r, xm') /\ KnownRefill(r, xm') THEN "refill"
+                 ELSE IF r.e = "SetUp" /\ KnownPosResume(r) THEN "pos"
                  ELSE taint
+     /\ lastX' = IF r.e = "Step" /\ c # NoCfg /\ c.exact /\ Has(r, "b1") /\ Has(r, "b0") /\ Has(r, "k") THEN [cfg |-> c.id, k |-> r.k, b0 |-> r.b0, b1 |-> r.b1]
+                 ELSE IF r.e = "System" THEN << >> ELSE lastX
+     /\ scale' = IF r.e = "ScaleOf" /\ Explains(r, xm') THEN [by |-> r.by, cfg |-> c, data |-> data, last |-> lastX]
+                 ELSE IF r.e \in {"RunEnd", "System", "End"} THEN << >> ELSE scale
      /\ bad' = IF Explains(r, xm') THEN bad ELSE IF Len(bad) < 300 THEN Append(bad, << l, Classify(r, xm') >>) ELSE bad
   /\ l' = l + 1
 TSpec == Init /\ [][Next]_vars
